@@ -1,11 +1,11 @@
 package sym
 
 import (
-	"os"
 	"bufio"
 	"fmt"
 	"io"
 	"math/big"
+	"os"
 	"os/exec"
 	"strings"
 	"time"
@@ -24,30 +24,30 @@ func (r Result) String() string { return [...]string{"unsat", "sat", "unknown"}[
 
 // Solver wraps one persistent SMT solver process speaking SMT-LIB2 on stdin/stdout.
 type Solver struct {
-	Name      string
-	cmd       *exec.Cmd
-	in        io.WriteCloser
-	out       *bufio.Reader
-	emitted   map[*Term]bool
-	tablesOut int
-	tc        *TermCtx
-	Queries   int
-	Time      time.Duration
-	Errors    []string
-	TimeoutMs int
-	Log       io.Writer // optional transcript
-	buf       strings.Builder
-	dead      bool
-	asserted  []*Term
-	fresh     *Solver // fallback: non-incremental re-check of queries the incremental core gives up on
-	SoftMs    int
-	Fallbacks int
-	isFresh   bool
-	abstract  bool // emit multiplications/divisions as uninterpreted constants (sound for unsat)
-	cvc       *Solver
-	alt       *Solver // cvc5 --solve-bv-as-int=sum
-	AltHits   int
-	struggled bool // the incremental core already gave up once on this path
+	Name         string
+	cmd          *exec.Cmd
+	in           io.WriteCloser
+	out          *bufio.Reader
+	emitted      map[*Term]bool
+	tablesOut    int
+	tc           *TermCtx
+	Queries      int
+	Time         time.Duration
+	Errors       []string
+	TimeoutMs    int
+	Log          io.Writer // optional transcript
+	buf          strings.Builder
+	dead         bool
+	asserted     []*Term
+	fresh        *Solver // fallback: non-incremental re-check of queries the incremental core gives up on
+	SoftMs       int
+	Fallbacks    int
+	isFresh      bool
+	abstract     bool // emit multiplications/divisions as uninterpreted constants (sound for unsat)
+	cvc          *Solver
+	alt          *Solver // cvc5 --solve-bv-as-int=sum
+	AltHits      int
+	struggled    bool // the incremental core already gave up once on this path
 	AbstractHits int
 }
 
